@@ -4,7 +4,19 @@ _NOTE = ("Trusted: CrossHair's models of Python built-ins and z3 for 'holds' ver
          "/verif/harness, validated on every run against inputs pinned by the repo's tests. Claim is bounded: see "
          "evidence.coverage.bounds; anything beyond those bounds is outside the claim.")
 
+_TECH = "symbolic execution of the real code (CrossHair) with z3 deciding every branch; bounded exhaustive path-tree verdict; differential oracle; counterexamples replayed concretely"
+
+
+def _c(text, ref):
+    return {"text": text, "design_ref": ref, "note": _NOTE, "technique": _TECH}
+
+
 CLAIMS = {
+    "C09": _c("Bounded symbolic model checking of the real Lexer / parser / strip_ignored_characters against a reference tokenizer "
+              "written from the lexical grammar: every scalar-value string up to the stated length for one lexer step and for the "
+              "whole token stream; ignored-sequence insertion at every token boundary, single-character substitution by any code "
+              "point at every position, and every token limit on a small document corpus. Cells that do not exhaust within the "
+              "budget are reported as inconclusive (bug hunting only) in the evidence.", "DESIGN.md section 7, C09"),
     "C10": {
         "text": "Bounded symbolic model checking of the real Source.get_location / lexer bookkeeping / print_source_location "
                 "against the specification's line/column definition, for every Unicode body up to the stated length and every "
